@@ -244,6 +244,9 @@ pub enum Op {
     Probe(u8, u32, u32),
     /// convert between two items of a family
     ConvertProbe(u8, u8, u8, u32),
+    /// set_date_rule(language, the patterns the language already has): a configuration call that changes nothing - in
+    /// particular it leaves the registered rules alone
+    ResetDateRule(u8),
 }
 
 #[derive(Clone, Debug, Serialize, Deserialize)]
@@ -615,6 +618,27 @@ impl Prop for Registry {
                         break;
                     }
                 }
+                Op::ResetDateRule(l) => {
+                    let lang = lang_of(*l);
+                    rendered.push_str(&format!("set_date_rule({}, <its default patterns>); ", lang));
+                    let patterns: Vec<String> = match lang {
+                        "en" => vec!["{MONTH:month} {NUMBER:day}, {NUMBER:year}", "{MONTH:month} {NUMBER:day} {NUMBER:year}", "{NUMBER:day}/{NUMBER:month}/{NUMBER:year}", "{NUMBER:day} {MONTH:month} {NUMBER:year}", "{NUMBER:day} {MONTH:month}"],
+                        "tr" => vec!["{NUMBER:day}/{NUMBER:month}/{NUMBER:year}", "{NUMBER:day} {MONTH:month} {NUMBER:year}", "{NUMBER:day} {MONTH:month}"],
+                        _ => vec![],
+                    }
+                    .into_iter()
+                    .map(|s| s.to_string())
+                    .collect();
+                    if patterns.is_empty() {
+                        continue;
+                    }
+                    if let Err(p) = guarded(|| calc.set_date_rule(lang, patterns)) {
+                        acc.fail(format!("set_date_rule panicked at {}: {}", p.site, p.message));
+                        break;
+                    }
+                    builds += 1;
+                    differential(&calc, &m, &deleted, &mut acc, w, "after set_date_rule with the default patterns");
+                }
                 Op::ConvertProbe(f, i, j, amount) => {
                     let fam = FAMILY_NAMES[*f as usize % FAMILY_NAMES.len()];
                     let mut items: Vec<&ItemSpec> = m.items.iter().filter(|x| FAMILY_NAMES[x.family as usize % FAMILY_NAMES.len()] == fam).collect();
@@ -737,6 +761,7 @@ pub fn op_strategy() -> impl Strategy<Value = Op> {
         4 => (0u8..3, 0u8..=5, 0u8..10, 2u8..=12, 2u8..=12, prop_oneof![2 => Just(0u8), 1 => Just(1u8), 1 => Just(2u8)]).prop_map(|(family, index, unit, down, up, names)| Op::AddItem(ItemSpec { family, index, unit, down, up, names })),
         6 => (any::<u8>(), 0u32..40, 0u32..40).prop_map(|(i, n, k)| Op::Probe(i, n, k)),
         3 => (0u8..3, any::<u8>(), any::<u8>(), 1u32..1000).prop_map(|(f, i, j, a)| Op::ConvertProbe(f, i, j, a)),
+        1 => (0u8..2).prop_map(Op::ResetDateRule),
     ]
 }
 
@@ -753,6 +778,12 @@ fn rule_block() -> impl Strategy<Value = Vec<Op>> {
     )
         .prop_map(|(adds, probes1, dels, probes2, readd)| {
             let mut ops: Vec<Op> = adds.into_iter().map(|(l, r)| Op::AddRule(l, r)).collect();
+            // (one block in four re-sets the default date patterns of a language after the registrations)
+            if let Some((i, _, k)) = probes1.first() {
+                if (*i as u32 + *k) % 4 == 0 {
+                    ops.push(Op::ResetDateRule((*k % 2) as u8));
+                }
+            }
             ops.extend(probes1.into_iter().map(|(i, n, k)| Op::Probe(i, n, k)));
             ops.extend(dels.into_iter().map(|(l, n)| Op::DeleteRule(l, n)));
             ops.extend(probes2.into_iter().map(|(i, n, k)| Op::Probe(i, n, k)));
@@ -1084,7 +1115,7 @@ pub fn self_check() {
 
 pub fn run(ctx: &Ctx) {
     self_check();
-    ctx.rule("call histories of 1-14 operations on one calculator: add_rule(en|tr|unknown language, 1-3 patterns of fresh keywords - or no keyword at all for rules that always decline, or an operator word of the rule's own language (times/minus, kere/eksi) - and typed fields {NUMBER:n} {PERCENT:n} {MONEY:n} {TEXT:n} {NUMBER:k} or a quantity of a user family {DYNAMIC_TYPE:n[:family]} (the rule registered before the family exists or after its items), behaviour computed from the NAMED fields: decline always / decline when n is odd / Number(c+2n+3k) / Money / Percent / Duration), delete_rule (existing, never registered - also the function names of built-in rules such as convert_money -, already deleted, unknown language; names from a pool of four so that duplicates occur), add_dynamic_type, add_dynamic_type_item (fresh / duplicate index / unknown family, integer link factors; families whose lowest index is 0, 1 or 3; units with one name or two names in either order, lines written with either), probe evaluations of registered and deleted patterns, family conversions; oracle: return values against a model (add_rule false iff unknown language, delete_rule true iff a live rule of that name exists, removing the first; add_dynamic_type false iff the name exists; add_dynamic_type_item false iff the family is unknown or the index taken); effect: a line matched by exactly one live rule evaluates to what its behaviour computes, a declining rule or no rule leaves the line as on a plain calculator; conversions = product of the declared link factors; and after every deletion and at the end: the built-in sentences (arithmetic, money, percent, units, dates, durations incl. several parts and 'as', zones, bases) evaluate as on a plain calculator unless an operator-word rule is live, and every live pattern is probed for its effect once more at the end of the history; a panel of probe lines (every registered and deleted pattern, thirteen built-in sentences, every pair of family items, cross-family lines) evaluates identically on the long-lived calculator and on a fresh one on which only the surviving registrations were replayed, once in their order and once families first; non-trivial = a deletion followed by a probe of the deleted rule's pattern, two rules of equal name, or a rejected duplicate followed by a conversion");
+    ctx.rule("call histories of 1-14 operations on one calculator: add_rule(en|tr|unknown language, 1-3 patterns of fresh keywords - or no keyword at all for rules that always decline, or an operator word of the rule's own language (times/minus, kere/eksi) - and typed fields {NUMBER:n} {PERCENT:n} {MONEY:n} {TEXT:n} {NUMBER:k} or a quantity of a user family {DYNAMIC_TYPE:n[:family]} (the rule registered before the family exists or after its items), behaviour computed from the NAMED fields: decline always / decline when n is odd / Number(c+2n+3k) / Money / Percent / Duration), delete_rule (existing, never registered - also the function names of built-in rules such as convert_money -, already deleted, unknown language; names from a pool of four so that duplicates occur), add_dynamic_type, add_dynamic_type_item (fresh / duplicate index / unknown family, integer link factors; families whose lowest index is 0, 1 or 3; units with one name or two names in either order, lines written with either), set_date_rule with the patterns a language already has (changes nothing), probe evaluations of registered and deleted patterns, family conversions; oracle: return values against a model (add_rule false iff unknown language, delete_rule true iff a live rule of that name exists, removing the first; add_dynamic_type false iff the name exists; add_dynamic_type_item false iff the family is unknown or the index taken); effect: a line matched by exactly one live rule evaluates to what its behaviour computes, a declining rule or no rule leaves the line as on a plain calculator; conversions = product of the declared link factors; and after every deletion and at the end: the built-in sentences (arithmetic, money, percent, units, dates, durations incl. several parts and 'as', zones, bases) evaluate as on a plain calculator unless an operator-word rule is live, and every live pattern is probed for its effect once more at the end of the history; a panel of probe lines (every registered and deleted pattern, thirteen built-in sentences, every pair of family items, cross-family lines) evaluates identically on the long-lived calculator and on a fresh one on which only the surviving registrations were replayed, once in their order and once families first; non-trivial = a deletion followed by a probe of the deleted rule's pattern, two rules of equal name, or a rejected duplicate followed by a conversion");
     ctx.assume("patterns consist of a fresh keyword plus typed fields (>= 2 tokens, the result cannot match again); unit items have fresh names, contiguous indices are needed for a conversion to be asserted");
     ctx.run_table(&Registry, "regressions", regressions(), false);
     let max = match ctx.tier {
